@@ -2,9 +2,13 @@
 about.  Observation uses public extension points (iterator wrapper as solverType, coupling-model
 callback) plus an instance-level wrapper around `_calcMassBalance` that copies its arguments and
 results (no change to the kawin source)."""
-import copy, io, contextlib
+import copy, io, contextlib, signal, os
 import numpy as np
 import stubs
+
+
+class RunTimeout(Exception):
+    """a run exceeded its wall-clock budget (normal runs take seconds)"""
 
 
 class Trace:
@@ -118,19 +122,29 @@ def run_binary(cfg, rng=None):
         """stop the run after maxsteps accepted steps (a stopping condition object)"""
         def __init__(self):
             self.k = 0
-    with contextlib.redirect_stdout(io.StringIO()):
-        between = cfg.get('between', [])
-        for k, seg in enumerate(cfg.get('segments', [1e3])):
-            if k > 0 and k - 1 < len(between):
-                # operations on the model between two solve calls: list of (method name, args)
-                for (meth, args) in between[k - 1]:
-                    if meth == 'reset':
-                        m.reset()
-                        state_reset(m)
-                    else:
-                        getattr(m, meth)(*args)
-            m.solve(seg, solverType=itw, verbose=False)
-            if len(tr.steps) >= maxsteps:
-                break
+    limit = float(os.environ.get('KAWIN_RUN_LIMIT', cfg.get('limit', 240)))
+
+    def _alarm(signum, frame):
+        raise RunTimeout('run %s still going after %.0f s (%d steps recorded)' % (cfg.get('name'), limit, len(tr.steps)))
+    old = signal.signal(signal.SIGALRM, _alarm)
+    signal.setitimer(signal.ITIMER_REAL, limit)
+    try:
+        with contextlib.redirect_stdout(io.StringIO()):
+            between = cfg.get('between', [])
+            for k, seg in enumerate(cfg.get('segments', [1e3])):
+                if k > 0 and k - 1 < len(between):
+                    # operations on the model between two solve calls: list of (method name, args)
+                    for (meth, args) in between[k - 1]:
+                        if meth == 'reset':
+                            m.reset()
+                            state_reset(m)
+                        else:
+                            getattr(m, meth)(*args)
+                m.solve(seg, solverType=itw, verbose=False)
+                if len(tr.steps) >= maxsteps:
+                    break
+    finally:
+        signal.setitimer(signal.ITIMER_REAL, 0)
+        signal.signal(signal.SIGALRM, old)
     tr.model = m
     return tr
